@@ -917,7 +917,15 @@ def main():
     ref_keys = sorted(ref_map)
     deviations = []       # (site, class, template, row, devs)
     matrix_table = {}
+    all_probes, all_items, all_refs = probes, items, refs
     for rel, fmt in ((False, False), (True, False), (False, True)):
+        if (rel or fmt) and not chk.thorough:
+            # quick tier: the site x consumer product runs on the debug build with the default formatter only
+            sel = [i for i, pr in enumerate(all_probes) if not pr[0].startswith("px:")]
+        else:
+            sel = list(range(len(all_probes)))
+        probes, items, refs = [all_probes[i] for i in sel], [all_items[i] for i in sel], [all_refs[i] for i in sel]
+        ref_keys = sorted(set(key_of(rt) for rt, _ in refs if rt))
         rows = render4(items, release=rel, fmt=fmt)
         ref_rows = dict(zip(ref_keys, render4([(ref_map[k], CTX) for k in ref_keys], release=rel, fmt=fmt)))
         evaluations += 4 * (len(items) + len(ref_keys))
@@ -936,6 +944,7 @@ def main():
                 report_mono(src, CTX, rel, {"probe": [site, cls, tmpl, op]}, fmt=fmt)
             if dev:
                 deviations.append((site, cls, tmpl, op, src, row, dev, rel, fmt))
+    probes, items, refs = all_probes, all_items, all_refs
     seen_dev = set()
     for site, cls, tmpl, op, src, row, dev, rel, fmt in deviations:
         k = known_site(site, row)
@@ -1079,7 +1088,8 @@ def main():
         chk.violation("built-in %s %s, argument position %s: an undefined operand does not make the call fail under %s (the cell is not in the table of tolerated positions)" % (kind, name, pos, " and ".join(bad2)),
                       {"template": src, "context": CTX, "outcomes": row_show(row2), "site": site})
     chk.cov["builtin_cells"] = {"cells (built-in x argument position)": len(cells), "tolerated_by_table": len(cells_tolerated), "must_fail": len(cells) - len(cells_tolerated),
-                                "known_gaps": sorted(s for s in cell_dev if known_site(s, cell_dev[s][1]))}
+                                "known_gaps": sorted(s for s in cell_dev if known_site(s, cell_dev[s][1])),
+                                "tolerated_table": {"%s:%s:%s" % c: tolerated(*c)[0][:60] + " [" + ",".join(tolerated(*c)[1]) + "]" for c in sorted(cells_tolerated)}}
     ops = operator_cases()
     o_items = []
     for oid, e, is_expr in ops:
